@@ -3,6 +3,8 @@
 
 use crate::alignment::Alignment;
 
+// One submodule per verified mechanism (libwild/src/verif_api/<name>.rs).
+
 /// `Alignment::new(raw)`, returning the exponent on success.
 pub fn alignment_new(raw: u64) -> Option<u8> {
     Alignment::new(raw).ok().map(|a| a.exponent)
